@@ -8,6 +8,7 @@ import gen
 import spec
 import sx
 from sx import Sym, tag
+from spec import T, OP
 from suite_json import impl_write, same_spec
 from suite_o import brute_force
 
@@ -353,38 +354,92 @@ def model_sets(ctx, m, key):
     return [frozenset(s) for s in v[1]] if v[0] == "ok" else None
 
 
+def nest_ctcs():
+    """every operator directly inside every operator, on either side (and under NOT), over three names"""
+    A, B, C = T("A"), T("B"), T("C")
+    bins = [o for o in gen.LOGICAL if o != "NOT"]
+    for o2 in bins:
+        yield OP("NOT", OP(o2, A, B))
+        for o1 in bins:
+            yield OP(o1, OP(o2, A, B), C)
+            yield OP(o1, A, OP(o2, B, C))
+            yield OP(o1, OP("NOT", A), OP(o2, B, OP("NOT", C)))
+    for o1 in bins:
+        yield OP(o1, A, B)
+        yield OP(o1, OP("NOT", A), B)
+        yield OP(o1, A, OP("NOT", B))
+        yield OP(o1, B, A)
+
+
+def free_model(ctc):
+    base = spec.F("R", [spec.R(0, 1, [spec.F("A")]), spec.R(0, 1, [spec.F("B")]), spec.R(0, 1, [spec.F("C")])])
+    return dict(root=base, ctcs=[("c0", ctc)])
+
+
+def ctc_stream(ctx):
+    """one constraint over a tree that leaves A, B, C free: its meaning is fully visible in the configurations"""
+    for t in nest_ctcs():
+        yield "nest-ctc", free_model(t)
+    # two constraints of the same shape over names that differ only in letter case
+    for o in ["REQUIRES", "EXCLUDES", "IMPLIES", "OR", "AND"]:
+        base = spec.F("R", [spec.R(0, 1, [spec.F(n)]) for n in ("Xa", "xa", "Yb", "yb")])
+        yield "case-twins", dict(root=base, ctcs=[("c0", OP(o, T("Xa"), T("Yb"))), ("c1", OP(o, T("xa"), T("yb")))])
+        yield "case-twins", dict(root=base, ctcs=[("c0", OP(o, T("Xa"), T("Yb"))), ("c1", OP(o, T("Xa"), T("Yb")))])
+    trees = list(gen.all_ctc_trees(["A", "B", "C"], gen.LOGICAL, 2))
+    step = max(1, len(trees) // (150 if ctx.tier == "quick" else 6000))
+    for t in trees[ctx.gen.rng.randrange(step)::step]:
+        yield "exh-ctc", free_model(t)
+
+
+def interpret(w, label, req, fn, *args):
+    """run an interpreter of a target format on the implementation's output; output that is not in the
+    format's syntax is a property failure, not a harness crash"""
+    try:
+        return fn(*args)
+    except Exception as e:  # noqa: BLE001
+        w.oracle_fail(label, req, "export-not-in-target-syntax", f"{type(e).__name__}: {e}"[:300])
+        return None
+
+
 def run_splot(ctx):
     from flamapy.metamodels.fm_metamodel.transformations import SPLOTWriter
     w = ctx.suite("W-splot")
     s = ctx.suite("S-splot")
     g = ctx.gen
     sc = fmt.Scratch()
+
+    def one(label, m, nontrivial):
+        req = sx.dumps(tag("splot_text", spec.fm_sx(m)))
+        mrep = ctx.model.call_raw(req)
+        st, ret, data, after, path = impl_write(sc, m, SPLOTWriter, "sxfm")
+        irep = sx.dumps(tag("ok", ret)) if st[0] == "ok" else sx.dumps(tag("err", Sym(st[1])))
+        w.record(label, req, irep, mrep, nontrivial=nontrivial)
+        if not same_spec(after, m):
+            w.oracle_fail(label, req, "writer-modified-model", "")
+        if st[0] != "ok":
+            w.oracle_fail(label, req, "writer-raises", st[1])
+            return
+        if data.decode("utf-8") != ret:
+            w.oracle_fail(label, req, "returned-differs-from-file", "")
+        names, tree_ok, full_ok = brute_force(m)
+        res = interpret(w, label, req, sxfm_configs, ret, names)
+        if res is None:
+            return
+        got, exported = res
+        if not set(names) <= exported:
+            w.oracle_fail(label, req, "feature-missing-from-export", str(sorted(set(names) - exported)))
+        if not same_sets(got, full_ok):
+            w.oracle_fail(label, req, "xe:configurations-differ" if has_xe(m) else "configurations-differ",
+                          f"export admits {len(got)}, model has {len(full_ok)}")
+        # the model's own semantics of its document agrees with the independent interpreter of the text
+        ms = model_sets(ctx, m, "splot")
+        s.record(label, req, repr(sorted(map(sorted, got))), repr(sorted(map(sorted, ms))) if ms is not None else "err")
     try:
         for i in range(150 if ctx.tier == "quick" else 2500):
             n = g.rng.choice([1, 2, 3, 5, 8] if ctx.tier == "quick" else [1, 3, 6, 9, 11])
-            m = g.model(n, kinds=KINDS, abstract=False, ctc_depth=2, name_classes=SPLOT_NAMES)
-            req = sx.dumps(tag("splot_text", spec.fm_sx(m)))
-            mrep = ctx.model.call_raw(req)
-            st, ret, data, after, path = impl_write(sc, m, SPLOTWriter, "sxfm")
-            irep = sx.dumps(tag("ok", ret)) if st[0] == "ok" else sx.dumps(tag("err", Sym(st[1])))
-            w.record("boolean", req, irep, mrep, nontrivial=n >= 2)
-            if not same_spec(after, m):
-                w.oracle_fail("boolean", req, "writer-modified-model", "")
-            if st[0] != "ok":
-                w.oracle_fail("boolean", req, "writer-raises", st[1])
-                continue
-            if data.decode("utf-8") != ret:
-                w.oracle_fail("boolean", req, "returned-differs-from-file", "")
-            names, tree_ok, full_ok = brute_force(m)
-            got, exported = sxfm_configs(ret, names)
-            if not set(names) <= exported:
-                w.oracle_fail("boolean", req, "feature-missing-from-export", str(sorted(set(names) - exported)))
-            if not same_sets(got, full_ok):
-                w.oracle_fail("boolean", req, "xe:configurations-differ" if has_xe(m) else "configurations-differ",
-                              f"export admits {len(got)}, model has {len(full_ok)}")
-            # the model's own semantics of its document agrees with the independent interpreter of the text
-            ms = model_sets(ctx, m, "splot")
-            s.record("boolean", req, repr(sorted(map(sorted, got))), repr(sorted(map(sorted, ms))) if ms is not None else "err")
+            one("boolean", g.model(n, kinds=KINDS, abstract=False, ctc_depth=2, name_classes=SPLOT_NAMES), n >= 2)
+        for label, m in ctc_stream(ctx):
+            one(label, m, True)
     finally:
         sc.close()
 
@@ -400,31 +455,38 @@ def run_pl(ctx):
     s = ctx.suite("S-pl")
     g = ctx.gen
     sc = fmt.Scratch()
+
+    def one(label, m, nontrivial):
+        req = sx.dumps(tag("pl_lines", spec.fm_sx(m)))
+        mrep = sx.loads(ctx.model.call_raw(req))
+        mcanon = sx.dumps([mrep[0], sorted(mrep[1])]) if mrep[0] == "ok" else sx.dumps(mrep)
+        st, ret, data, after, path = impl_write(sc, m, PLWriter, "exp")
+        irep = sx.dumps([Sym("ok"), sorted(ret.split("\n"))]) if st[0] == "ok" else sx.dumps(tag("err", Sym(st[1])))
+        w.record(label, req, irep, mcanon, nontrivial=nontrivial)
+        if not same_spec(after, m):
+            w.oracle_fail(label, req, "writer-modified-model", "")
+        if st[0] != "ok":
+            w.oracle_fail(label, req, "writer-raises", st[1])
+            return
+        if data.decode("utf-8") != ret:
+            w.oracle_fail(label, req, "returned-differs-from-file", "")
+        names, tree_ok, full_ok = brute_force(m)
+        res = interpret(w, label, req, exp_configs, ret, names)
+        if res is None:
+            return
+        got, exported = res
+        if not set(names) <= exported:
+            w.oracle_fail(label, req, "feature-missing-from-export", str(sorted(set(names) - exported)))
+        if not same_sets(got, full_ok):
+            w.oracle_fail(label, req, "configurations-differ", f"export admits {len(got)}, model has {len(full_ok)}")
+        ms = model_sets(ctx, m, "pl")
+        s.record(label, req, repr(sorted(map(sorted, got))), repr(sorted(map(sorted, ms))) if ms is not None else "err")
     try:
         for i in range(150 if ctx.tier == "quick" else 2500):
             n = g.rng.choice([1, 2, 3, 5, 8] if ctx.tier == "quick" else [1, 3, 6, 9, 11])
-            m = exp_model(g, n)
-            req = sx.dumps(tag("pl_lines", spec.fm_sx(m)))
-            mrep = sx.loads(ctx.model.call_raw(req))
-            mcanon = sx.dumps([mrep[0], sorted(mrep[1])]) if mrep[0] == "ok" else sx.dumps(mrep)
-            st, ret, data, after, path = impl_write(sc, m, PLWriter, "exp")
-            irep = sx.dumps([Sym("ok"), sorted(ret.split("\n"))]) if st[0] == "ok" else sx.dumps(tag("err", Sym(st[1])))
-            w.record("boolean", req, irep, mcanon, nontrivial=n >= 2)
-            if not same_spec(after, m):
-                w.oracle_fail("boolean", req, "writer-modified-model", "")
-            if st[0] != "ok":
-                w.oracle_fail("boolean", req, "writer-raises", st[1])
-                continue
-            if data.decode("utf-8") != ret:
-                w.oracle_fail("boolean", req, "returned-differs-from-file", "")
-            names, tree_ok, full_ok = brute_force(m)
-            got, exported = exp_configs(ret, names)
-            if not set(names) <= exported:
-                w.oracle_fail("boolean", req, "feature-missing-from-export", str(sorted(set(names) - exported)))
-            if not same_sets(got, full_ok):
-                w.oracle_fail("boolean", req, "configurations-differ", f"export admits {len(got)}, model has {len(full_ok)}")
-            ms = model_sets(ctx, m, "pl")
-            s.record("boolean", req, repr(sorted(map(sorted, got))), repr(sorted(map(sorted, ms))) if ms is not None else "err")
+            one("boolean", exp_model(g, n), n >= 2)
+        for label, m in ctc_stream(ctx):
+            one(label, m, True)
     finally:
         sc.close()
 
@@ -484,36 +546,41 @@ def run_clafer(ctx):
     s = ctx.suite("S-clafer")
     g = ctx.gen
     sc = fmt.Scratch()
+
+    def one(label, m, nontrivial):
+        req = sx.dumps(tag("clafer_text", spec.fm_sx(m)))
+        mrep = ctx.model.call_raw(req)
+        st, ret, data, after, path = impl_write(sc, m, ClaferWriter, "txt")
+        irep = sx.dumps(tag("ok", ret)) if st[0] == "ok" else sx.dumps(tag("err", Sym(st[1])))
+        w.record(label, req, irep, mrep, nontrivial=nontrivial)
+        if not same_spec(after, m):
+            w.oracle_fail(label, req, "writer-modified-model", "")
+        if st[0] != "ok":
+            w.oracle_fail(label, req, "writer-raises", st[1])
+            return
+        if data.decode("utf-8") != ret:
+            w.oracle_fail(label, req, "returned-differs-from-file", "")
+        names, tree_ok, full_ok = brute_force(m)
+        res = interpret(w, label, req, clafer_configs, ret, names)
+        if res is None:
+            return
+        got, exported, decls, uses = res
+        if not set(names) <= exported:
+            w.oracle_fail(label, req, "feature-missing-from-export", str(sorted(set(names) - exported)))
+        if not same_sets(got, full_ok):
+            w.oracle_fail(label, req, "configurations-differ", f"export admits {len(got)}, model has {len(full_ok)}")
+        if not set(uses) <= set(decls):
+            w.oracle_fail(label, req, "attribute-used-but-not-declared-under-that-identifier", str(sorted(set(uses) - set(decls))))
+        if re.search(r"\b(REQUIRES|EXCLUDES|IMPLIES|EQUIVALENCE|XOR|AND|OR|NOT)\b", "\n".join(parse_clafer(ret)[1])) and \
+                not any(re.search(r"\b(REQUIRES|EXCLUDES|IMPLIES|EQUIVALENCE|XOR|AND|OR|NOT)\b", nme) for nme in names):
+            w.oracle_fail(label, req, "untranslated-operator", "")
+        ms = model_sets(ctx, m, "clafer")
+        s.record(label, req, repr(sorted(map(sorted, got))), repr(sorted(map(sorted, ms))) if ms is not None else "err")
     try:
         for i in range(150 if ctx.tier == "quick" else 2500):
             n = g.rng.choice([1, 2, 3, 5, 8] if ctx.tier == "quick" else [1, 3, 6, 9, 11])
-            m = clafer_model(g, n)
-            req = sx.dumps(tag("clafer_text", spec.fm_sx(m)))
-            mrep = ctx.model.call_raw(req)
-            st, ret, data, after, path = impl_write(sc, m, ClaferWriter, "txt")
-            irep = sx.dumps(tag("ok", ret)) if st[0] == "ok" else sx.dumps(tag("err", Sym(st[1])))
-            w.record("fragment", req, irep, mrep, nontrivial=n >= 2)
-            if not same_spec(after, m):
-                w.oracle_fail("fragment", req, "writer-modified-model", "")
-            if st[0] != "ok":
-                w.oracle_fail("fragment", req, "writer-raises", st[1])
-                continue
-            if data.decode("utf-8") != ret:
-                w.oracle_fail("fragment", req, "returned-differs-from-file", "")
-            names, tree_ok, full_ok = brute_force(m)
-            got, exported, decls, uses = clafer_configs(ret, names)
-            if not set(names) <= exported:
-                w.oracle_fail("fragment", req, "feature-missing-from-export", str(sorted(set(names) - exported)))
-            if not same_sets(got, full_ok):
-                w.oracle_fail("fragment", req, "configurations-differ", f"export admits {len(got)}, model has {len(full_ok)}")
-            if not set(uses) <= set(decls):
-                w.oracle_fail("fragment", req, "attribute-used-but-not-declared-under-that-identifier", str(sorted(set(uses) - set(decls))))
-            for _, a in m["ctcs"]:
-                pass
-            if re.search(r"\b(REQUIRES|EXCLUDES|IMPLIES|EQUIVALENCE|XOR|AND|OR|NOT)\b", "\n".join(parse_clafer(ret)[1])) and \
-                    not any(re.search(r"\b(REQUIRES|EXCLUDES|IMPLIES|EQUIVALENCE|XOR|AND|OR|NOT)\b", nme) for nme in names):
-                w.oracle_fail("fragment", req, "untranslated-operator", "")
-            ms = model_sets(ctx, m, "clafer")
-            s.record("fragment", req, repr(sorted(map(sorted, got))), repr(sorted(map(sorted, ms))) if ms is not None else "err")
+            one("fragment", clafer_model(g, n), n >= 2)
+        for label, m in ctc_stream(ctx):
+            one(label, m, True)
     finally:
         sc.close()
